@@ -519,7 +519,15 @@ def gen_spec(rng):
     spec = {'grid': gs, 'meta_size': list(meta), 'meta_buffer': rng.choice([0, 0, 10, 80]), 'tasks': tasks,
             'skip_geoms': rng.choice([0, 0, 0, 1, 2, 2]), 'mode': mode,
             'partial': (rng.choice([0.0, 0.0, 0.3, 0.7]) if mode != 'all' else 0.0),
-            'salt': rng.randrange(1 << 30), 'rescale': rng.random() < 0.08}
+            'salt': rng.randrange(1 << 30), 'rescale': rng.random() < 0.15}
+    if spec['rescale']:
+        # what SeedConfiguration.seed_tasks() does for caches with upscale_tiles / downscale_tiles: one SeedTask per
+        # level, all with the same name / cache / grid (rescale_tiles > 0: deepest level first)
+        split = []
+        for t in tasks:
+            for z in t['levels'][::-1]:
+                split.append({'name': t['name'], 'levels': [z], 'lshape': 'per_level_of_' + t['lshape'], 'coverage': t['coverage']})
+        spec['tasks'] = split
     return spec
 
 
